@@ -127,7 +127,7 @@ RULE_DISP = ("sessions of public-API operations (register_*_hook on classes/NewT
 REGISTRY = {
     "C01": {"props_file": "Props/C01.v", "files": CORE_CONV + ["Proofs/UnstructProofs.v", "Proofs/ClassRoundtrip.v", "Proofs/ConvRoundtrip.v", "Proofs/ConvCfg.v", "Props/C01.v"],
             "run": _conv("C01", 40), "rule": RULE_CONV, "t1_sections": T1_CONV},
-    "C03": {"props_file": "Props/C03.v", "files": CORE_CONV + ["Proofs/ConvSound.v", "Proofs/ConvPrim.v", "Proofs/ConvCfg.v", "Props/C03.v"],
+    "C03": {"props_file": "Props/C03.v", "files": CORE_CONV + ["Model/ConvEnc.v", "Proofs/UnstructProofs.v", "Proofs/ClassRoundtrip.v", "Proofs/ConvSound.v", "Proofs/ConvPrim.v", "Proofs/ConvRoundtrip.v", "Proofs/ConvEncProofs.v", "Proofs/ConvCfg.v", "Props/C03.v"],
             "run": _conv("C03", 40), "rule": RULE_CONV, "t1_sections": T1_CONV},
     "C06": {"props_file": "Props/C06.v", "files": CORE_CONV + ["Proofs/UnstructProofs.v", "Proofs/ClassRoundtrip.v", "Proofs/ConvSound.v", "Proofs/ConvRoundtrip.v", "Proofs/ConvAgree.v", "Proofs/ConvCfg.v", "Props/C06.v"],
             "run": _conv("C06", 40), "rule": RULE_CONV, "t1_sections": T1_CONV},
